@@ -148,7 +148,7 @@ package ipfscluster
 //@   ensures nLogPin == old(nLogPin) && nLogUnpin == old(nLogUnpin)
 //@   loop 1 (range metrics)
 //@     invariant len(peers) == len(metrics) && (forall k int :: 0 <= k && k < idx1 ==> peers[k] == metrics[k].Peer)
-//@   modifies heap(api.Pin), heap([]peer.ID), allocN
+//@   modifies heap(api.Pin), heap([]peer.ID), allocN, lastOptsEq
 
 // ---- C04: pin / update / unpin change the log of consensus operations exactly as requested ----
 
@@ -173,7 +173,7 @@ package ipfscluster
 //@   ensures [reference-and-origins-copied] nLogPin == old(nLogPin) + 1 ==> lastLogged.Reference == pinset[from].Reference && lastLogged.Origins == pinset[from].Origins
 //@   ensures [returns-logged] nLogPin == old(nLogPin) + 1 ==> res != nil && *res == lastLogged
 //@   ensures [existing-pins-untouched] forall q *api.Pin :: !fresh(q) ==> *q == old(*q)
-//@   modifies nLogPin, lastLogged, allocN, heap(api.Pin)
+//@   modifies nLogPin, lastLogged, allocN, lastOptsEq, heap(api.Pin)
 
 // invariant of the shared pinset, established by every logged pin ([everywhere-empty] below): "-1 means everywhere: empty list"
 //@ spec func pinsetInv() bool = forall x cid.Cid :: haskey(pinset, x) && pinset[x].ReplicationFactorMin == -1 ==> len(pinset[x].Allocations) == 0
@@ -203,8 +203,11 @@ package ipfscluster
 // DAG) that arrives without allocations and with a positive replication factor is stored with some (C10: re-pinning
 // hands pins back with their allocations cleared and relies on this)
 //@   ensures [only-meta-entries-skip-allocation] nLogPin == old(nLogPin) + 1 && !(isRedirect(old(pin.PinOptions), old(pin.Cid)) && len(blacklist) == 0) && lastLogged.Type != api.MetaType && lastLogged.ReplicationFactorMin > 0 && len(old(pin.Allocations)) == 0 && len(blacklist) > 0 ==> allocN == old(allocN) + 1
+// "re-pinning with identical options keeps the allocations": when the options comparison said "same" (and nobody is
+// being evacuated) what is stored again is the stored pin's own allocation list
+//@   ensures [identical-repin-keeps-allocations] nLogPin == old(nLogPin) + 1 && !(isRedirect(old(pin.PinOptions), old(pin.Cid)) && len(blacklist) == 0) && haskey(pinset, old(pin.Cid)) && lastLogged.Type != api.MetaType && lastOptsEq && len(blacklist) == 0 && len(pinset[old(pin.Cid)].Allocations) > 0 ==> lastLogged.Allocations == pinset[old(pin.Cid)].Allocations
 //@   ensures [other-pins-untouched] forall q *api.Pin :: q != pin && !fresh(q) ==> *q == old(*q)
-//@   modifies nLogPin, lastLogged, allocN, heap(api.Pin)
+//@   modifies nLogPin, lastLogged, allocN, lastOptsEq, heap(api.Pin)
 
 //@ interface IPFSConnector.BlockGet(ctx, c)
 //@   modifies nothing
@@ -368,7 +371,7 @@ package ipfscluster
 //@   ensures [follower-does-nothing] c.config.FollowerMode ==> nLogPin == old(nLogPin)
 //@   ensures [same-cid-same-options] nLogPin == old(nLogPin) + 1 ==> lastLogged.Cid == old(pin.Cid) && optsAsRequested(c, lastLogged.PinOptions, old(pin.PinOptions))
 //@   ensures [other-pins-untouched] forall q *api.Pin :: q != pin && !fresh(q) ==> *q == old(*q)
-//@   modifies nLogPin, lastLogged, allocN, heap(api.Pin)
+//@   modifies nLogPin, lastLogged, allocN, lastOptsEq, heap(api.Pin)
 
 //@ ghost var vacateN int
 //@ ghost var lastVacated peer.ID
@@ -392,7 +395,7 @@ package ipfscluster
 //@     invariant forall j int :: 0 <= j && j < idx1 && in(p, elems(list[j].Allocations)) ==> in(list[j], repinOffered)
 //@     invariant forall q *Cluster :: *q == old(*q)
 //@     invariant forall q *Config :: *q == old(*q)
-//@   modifies nLogPin, lastLogged, allocN, repinOffered, heap(api.Pin)
+//@   modifies nLogPin, lastLogged, allocN, lastOptsEq, repinOffered, heap(api.Pin)
 
 // "an expired pin is unpinned ... and an unexpired pin by none": the sweep only unpins pins whose expiry is before now and for which this peer is closest
 //@ func (c *Cluster) StateSync
@@ -413,7 +416,7 @@ package ipfscluster
 //@   at_call Consensus.RmPeer assert [vacated-before-removal] vacateN == old(vacateN) + 1 && lastVacated == pid && p == pid
 //@   ensures [one-removal] rmPeerN == old(rmPeerN) + 1 && lastRmPeer == pid && vacateN == old(vacateN) + 1
 //@   ensures [never-unpins] nLogUnpin == old(nLogUnpin)
-//@   modifies vacateN, lastVacated, rmPeerN, lastRmPeer, nLogPin, lastLogged, allocN, repinOffered, heap(api.Pin)
+//@   modifies vacateN, lastVacated, rmPeerN, lastRmPeer, nLogPin, lastLogged, allocN, lastOptsEq, repinOffered, heap(api.Pin)
 
 // at most one peer considers itself closest: XOR with the CID's hash is injective, so two different peer hashes never tie
 //@ lemma xor_injective: forall a int, b int, k int :: a != b ==> (a ^ k) != (b ^ k)
@@ -617,8 +620,11 @@ package ipfscluster
 //@ func (c *Cluster) Shutdown
 //@   opts trusted
 //@   modifies *
+// (C18: the shutdown it triggers must run in its own goroutine - watchPeers still holds the shutdown lock Shutdown takes)
+//@ guards Cluster.shutdownLock: removed
 //@ func (c *Cluster) watchPeers
-//@   property C17
+//@   property C17 C18
+//@   opts own
 //@   at_call Cluster.Shutdown assert [a-removed-peer-stops-itself] c.removed && err == nil && (forall j int :: 0 <= j && j < len(peers) ==> peers[j] != c.id)
 //@   loop 1 (for)
 //@   loop 2 (range peers)
@@ -631,7 +637,7 @@ package ipfscluster
 //@   property C04
 //@   requires pinsetInv()
 //@   at_call Cluster.pin assert [as-requested] arg_pin != nil && arg_pin.Cid == h && arg_pin.PinOptions == opts && arg_pin.Type == api.DataType && len(arg_pin.Allocations) == 0 && len(blacklist) == 0
-//@   modifies nLogPin, lastLogged, allocN, heap(api.Pin)
+//@   modifies nLogPin, lastLogged, allocN, lastOptsEq, heap(api.Pin)
 
 //@ interface IPFSConnector.Resolve(ctx, path)
 //@   modifies nothing
@@ -639,7 +645,7 @@ package ipfscluster
 //@   property C04
 //@   requires pinsetInv()
 //@   at_call Cluster.Pin assert [the-resolved-cid-with-the-requested-options] h == ci && arg_opts == opts
-//@   modifies nLogPin, lastLogged, allocN, heap(api.Pin)
+//@   modifies nLogPin, lastLogged, allocN, lastOptsEq, heap(api.Pin)
 //@ func (c *Cluster) UnpinPath
 //@   property C04
 //@   at_call Cluster.Unpin assert [the-resolved-cid] h == ci
